@@ -82,7 +82,7 @@ def gen_reads(rng, case, sample, chrom, n, rgs_of_sample):
     ref = case["ref"][chrom]
     vs = case["variants"][chrom]
     vobjs = [synth.Variant(p, r, a, "x") for p, r, a in vs]
-    calls = case["calls"][sample][chrom]
+    calls = (case["calls"].get(sample) or case["calls"][case["samples"][0]])[chrom]
     ploidy = case["ploidy"]
     haps = [[(c["gt"][h] if c["gt"] is not None else 0) for c in calls] for h in range(ploidy)]
     L = len(ref)
@@ -100,11 +100,29 @@ def gen_reads(rng, case, sample, chrom, n, rgs_of_sample):
                 if rng.random() < 0.3:
                     alleles[i] = 1 - alleles[i]
         length = rng.choice([rng.randint(40, 120), rng.randint(100, 320)])
-        iv = _pick_interval(rng, vobjs, L, length)
+        if out and rng.random() < 0.3:           # clump: starts within a few bases of the previous read
+            iv = _pick_interval(rng, vobjs, L, length, lo=max(0, out[-1]["start"] + rng.randint(-12, 12)))
+        else:
+            iv = _pick_interval(rng, vobjs, L, length)
         if iv is None:
             continue
         s, e = iv
         seq, cig = synth.hap_walk(ref, vobjs, alleles, s, e)
+        if rng.random() < 0.12 and e - s > 60:   # spliced read: reference skip (N) in the middle
+            m1 = rng.randint(s + 15, e - 30)
+            m2 = m1 + rng.randint(8, max(9, (e - m1) // 2))
+            if m2 < e - 12 and all(synth.legal_boundary(vobjs, x) for x in (m1, m2)):
+                seq1, cig1 = synth.hap_walk(ref, vobjs, alleles, s, m1)
+                seq2, cig2 = synth.hap_walk(ref, vobjs, alleles, m2, e)
+                seq, cig = seq1 + seq2, cig1 + [("N", m2 - m1)] + cig2
+        if rng.random() < 0.15:                  # soft / hard clips
+            k = rng.randint(1, 8)
+            if rng.random() < 0.5:
+                seq, cig = synth.random_seq(rng, k) + seq, [("S", k)] + list(cig)
+            else:
+                seq, cig = seq + synth.random_seq(rng, k), list(cig) + [("S", k)]
+            if rng.random() < 0.3:
+                cig = [("H", rng.randint(1, 20))] + list(cig)
         rg = rng.choice(rgs_of_sample) if rgs_of_sample else None
         a = dict(name=name, chrom=chrom, start=s, cigar=[list(x) for x in cig], seq=seq, quals=_quals(rng, len(seq)),
                  flag=0, mapq=rng.choice([60, 60, 60, 60, 60, 30, 20, 19, 5]), rg=rg, tags=[], sample=sample)
@@ -122,6 +140,68 @@ def gen_reads(rng, case, sample, chrom, n, rgs_of_sample):
                 out += [a, b]
                 continue
         out.append(a)
+    return out
+
+
+def bx_trap(rng, case, sample, chrom, rgs_of_sample, d):
+    """Three reads of one barcode: anchor A, a read F that starts beyond the cut-off d of A (and of N), and a spliced
+    read N that starts within d of A but skips F's first variant, so that in the read set (ordered by first covered
+    variant) the far read F is listed between A and N.  N copies another haplotype than A with low base qualities: the
+    cloud {A, N} is decided by A, N alone would get the other haplotype."""
+    ref = case["ref"][chrom]
+    vs = case["variants"][chrom]
+    vobjs = [synth.Variant(p, r, a, "x") for p, r, a in vs]
+    calls = (case["calls"].get(sample) or case["calls"][case["samples"][0]])[chrom]
+    pl = case["ploidy"]
+    ok = [i for i in range(len(vs) - 2)
+          if vs[i + 1][0] - (vs[i][0] + len(vs[i][1])) >= d + 12 and vs[i][0] >= 12 and vs[i + 2][0] + 20 < len(ref)
+          and all(calls[j]["phased"] and calls[j]["ps"] is not None and len(set(calls[j]["gt"])) > 1 for j in (i, i + 2))]
+    if not ok:
+        return []
+    i = rng.choice(ok)
+    h = rng.randrange(pl)
+    cand = [x for x in range(pl) if calls[i + 2]["gt"][x] != calls[i + 2]["gt"][h]]
+    if not cand:
+        return []
+    h2 = rng.choice(cand)
+    hap = lambda x: [(c["gt"][x] if c["gt"] is not None else 0) for c in calls]
+
+    def legal(p, step):
+        while 0 < p < len(ref) - 1 and not synth.legal_boundary(vobjs, p):
+            p += step
+        return p
+    a_s = legal(vs[i][0] - rng.randint(2, 8), -1)
+    a_e = legal(vs[i + 2][0] + len(vs[i + 2][1]) + rng.randint(3, 15), 1)
+    n_s = legal(vs[i][0] + len(vs[i][1]) + rng.randint(1, 3), 1)
+    f_s = legal(n_s + d + rng.randint(1, 4), 1)
+    if not (a_s >= 0 and n_s - a_s <= d and f_s - n_s > d and f_s - a_s > d and f_s <= vs[i + 1][0]):
+        return []
+    m1 = legal(min(f_s, vs[i + 1][0]) - rng.randint(0, 2), -1)          # N: [n_s, m1) skip [m1, m2) then [m2, n_e)
+    m2 = legal(vs[i + 1][0] + len(vs[i + 1][1]) + rng.randint(1, 4), 1)
+    n_e = legal(vs[i + 2][0] + len(vs[i + 2][1]) + rng.randint(2, 10), 1)
+    f_e = legal(vs[i + 1][0] + len(vs[i + 1][1]) + rng.randint(2, 12), 1)
+    if not (n_s + 3 <= m1 <= vs[i + 1][0] and m2 <= vs[i + 2][0] and m2 < n_e <= len(ref) - 1 and a_e <= len(ref) - 1 and f_e < m2 + 40):
+        return []
+    out = []
+    rg = rng.choice(rgs_of_sample) if rgs_of_sample else None
+    bx = f"BX{sample}-{chrom}trap"
+
+    def mk(tag, segs, alle, q):
+        seq, cig = "", []
+        for k, (x, y) in enumerate(segs):
+            sq, cg = synth.hap_walk(ref, vobjs, alle, x, y)
+            if k:
+                cig.append(("N", x - segs[k - 1][1]))
+            seq += sq
+            cig += cg
+        return dict(name=f"{sample}_{chrom}_trap{tag}", chrom=chrom, start=segs[0][0], cigar=[list(z) for z in cig], seq=seq,
+                    quals=[q] * len(seq), flag=0, mapq=60, rg=rg, tags=[["BX", bx]], sample=sample)
+    try:
+        out.append(mk("A", [(a_s, a_e)], hap(h), 40))
+        out.append(mk("N", [(n_s, m1), (m2, n_e)], hap(h2), 12))
+        out.append(mk("F", [(f_s, f_e)], hap(rng.randrange(pl)), 30))
+    except AssertionError:
+        return []
     return out
 
 
@@ -164,7 +244,37 @@ def decorate(rng, case, alns):
     by_sample = {}
     for a in alns:
         by_sample.setdefault(a["sample"], []).append(a)
-    if case["bx"]:
+    if case["bx"] and case.get("bx_mode") == "clustered":
+        # clouds by position: the reads of a barcode lie in clusters of diameter <= d, clusters >= 2d apart, so
+        # that cloud membership does not depend on the processing order (d = the run's cut-off when small)
+        d = case.get("cutoff_hint") or 150
+        d = d if 20 <= d <= 400 else 150
+        for s, lst in by_sample.items():
+            for c in chroms:
+                prim = [a for a in lst if a["chrom"] == c and (a["flag"] & ~0x400) == 0]
+                for k in range(rng.randint(1, 2)):
+                    free = [a for a in prim if not any(t[0] == "BX" for t in a["tags"])]
+                    if not free:
+                        break
+                    centers = [rng.choice(free)["start"]]
+                    far = [a["start"] for a in free if all(abs(a["start"] - x) >= 3 * d for x in centers)]
+                    while far and len(centers) < 3:
+                        centers.append(rng.choice(far))
+                        far = [x for x in far if all(abs(x - y) >= 3 * d for y in centers)]
+                    for a in free:
+                        if any(abs(a["start"] - x) <= d // 2 for x in centers) and rng.random() < 0.9:
+                            a["tags"].append(["BX", f"BX{s}-{c}{k}"])
+        # records that share the name of a barcoded read (secondary / supplementary) mostly carry it too
+        named = {(a["sample"], a["name"]): t[1] for a in alns for t in a["tags"] if t[0] == "BX"}
+        for a in alns:
+            key = (a["sample"], a["name"])
+            if key in named and not any(t[0] == "BX" for t in a["tags"]) and rng.random() < 0.8:
+                a["tags"].append(["BX", named[key]])
+        # a few barcoded records that cover no variant (placed-unmapped ones): BX fall back
+        for a in alns:
+            if a["flag"] & 0x4 and not any(t[0] == "BX" for t in a["tags"]) and rng.random() < 0.3:
+                a["tags"].append(["BX", f"BX{a['sample']}-{a['chrom']}0"])
+    elif case["bx"]:
         for s, lst in by_sample.items():
             nbar = rng.randint(1, 3)
             names = sorted({a["name"] for a in lst})
@@ -235,6 +345,22 @@ def gen_regions(rng, case, kind):
         a, b, d, e = cuts(c, 4)
         return rng.choice([[f"{c}:{a}-{d}", f"{c}:{b}-{e}"], [f"{c}:{a}-{e}", f"{c}:{b}-{d}"], [f"{c}", f"{c}:{a}-{b}"],
                            [f"{c}:{a}-{b}", f"{c}:{a}-{b}"]])
+    if kind == "edge":                           # region boundaries exactly at / next to an alignment's start or end
+        cand = [a for a in case["alns"] if a["cigar"]]
+        if not cand:
+            return [c]
+        a = rng.choice(cand)
+        st = a["start"] + 1                       # 1-based first aligned base
+        en = a["start"] + sum(n for o, n in a["cigar"] if o in "MDN=X")    # 1-based last aligned base
+        Lc = L[a["chrom"]]
+        lo, hi = max(1, st - rng.randint(20, 80)), min(Lc, en + rng.randint(20, 80))
+        opts_ = [(lo, st - 1), (lo, st), (en, hi), (en + 1, hi), (st, st), (en, en), (st, en), (st + 1, en - 1)]
+        x, y = rng.choice([o for o in opts_ if 1 <= o[0] <= o[1] <= Lc] or [(1, Lc)])
+        regs = [f"{a['chrom']}:{x}-{y}"]
+        if rng.random() < 0.4 and y + 2 < Lc:     # a second region right behind it (adjacent or one base apart)
+            z = y + rng.choice([1, 2])
+            regs.append(f"{a['chrom']}:{z}-{min(Lc, z + rng.randint(5, 200))}")
+        return regs
     if kind == "chrom-order":
         return list(reversed(chroms))
     if kind == "special":                        # regions covering the contig that holds only unmapped records
@@ -248,6 +374,14 @@ def gen_regions(rng, case, kind):
 
 
 # ------------------------------------------------------------------------------------------ whole case
+def _multi_gt(rng, ploidy, nalt=2):
+    """genotype text of a record the reader must not use: phased, with a PS, alleles 0..nalt"""
+    g = [rng.randint(0, nalt) for _ in range(ploidy)]
+    if len(set(g)) < 2:
+        g[0] = (g[0] + 1) % (nalt + 1)
+    return {"gt": g, "ps": rng.randint(1, 9) * 7}
+
+
 def gen_case(rng, region_kind=None, big=False, special=None):
     """special: None (random) | "unmapped-only-last" | "unmapped-only-middle" | "none"."""
     ploidy = rng.choice([2, 2, 2, 3, 4])
@@ -264,9 +398,16 @@ def gen_case(rng, region_kind=None, big=False, special=None):
         chroms.insert(rng.randrange(len(chroms)), "chrU")
     if rng.random() < 0.2:
         chroms.insert(rng.randrange(len(chroms) + (0 if special == "unmapped-only-last" else 1)), "chrE")
-    samples = ["S1", "S2", "S3"][:rng.choice([1, 1, 2, 3])]
+    # sample names: VCF column order is the order drawn here, which need not be the sorted order; names share
+    # prefixes / sort against their position
+    pool = rng.choice([["S1", "S2", "S3"], ["S1", "S2", "S3"], ["zeta", "Alpha", "mid-1"], ["S10", "S1", "S1a"],
+                       ["b", "B", "a"], ["NA12878", "NA12", "child"]])
+    samples = pool[:rng.choice([1, 1, 2, 3])]
+    cutoff = rng.choice([None, 0, 10, 25, 40, 40, 150, 400, 50000])
     case = {"ploidy": ploidy, "chroms": chroms, "samples": samples, "ref": {}, "variants": {}, "calls": {},
-            "bx": rng.random() < 0.6, "normal_chroms": normal}
+            "bx": rng.random() < 0.65, "normal_chroms": normal, "cutoff_hint": cutoff,
+            "bx_mode": rng.choice(["random", "clustered", "clustered"]),
+            "phase_tag": "HP" if rng.random() < 0.15 else "PS"}
     for c in chroms:
         nv = 0 if rng.random() < 0.08 else rng.randint(3, 12 if big else 9)
         L = 300 + nv * rng.randint(60, 110)
@@ -276,6 +417,33 @@ def gen_case(rng, region_kind=None, big=False, special=None):
         case["variants"][c] = [[v.pos, v.ref, v.alt] for v in vs]
     for s in samples:
         case["calls"][s] = {c: gen_calls(rng, ploidy, case["variants"][c]) for c in chroms}
+    # extra VCF records: multi-ALT records (skipped by the reader) directly in front of a biallelic record at the
+    # same POS ("twin") or alone; a second biallelic record at an occupied POS (the reader keeps the first)
+    case["extra_records"] = {}
+    for c in chroms:
+        ex = []
+        vs = case["variants"][c]
+        occupied = {v[0] for v in vs}
+        for i, (pos, ref, alt) in enumerate(vs):
+            x = rng.random()
+            if x < 0.15:
+                other = [b for b in synth.BASES if b not in (ref[0], alt[0])]
+                ex.append({"pos": pos, "ref": ref, "alts": [alt if len(alt) == len(ref) == 1 else other[0], other[1]],
+                           "where": "before", "i": i, "gts": {sm: _multi_gt(rng, ploidy) for sm in samples}})
+            elif x < 0.20 and len(ref) == 1 and len(alt) == 1:
+                other = [b for b in synth.BASES if b not in (ref, alt)]
+                ex.append({"pos": pos, "ref": ref, "alts": [other[0]], "where": "after", "i": i,
+                           "gts": {sm: _multi_gt(rng, ploidy, nalt=1) for sm in samples}})
+        for _ in range(rng.choice([0, 0, 1])):
+            pos = rng.randint(5, len(case["ref"][c]) - 5)
+            if all(abs(pos - q) > 6 for q in occupied):
+                r0 = case["ref"][c][pos]
+                other = [b for b in synth.BASES if b != r0]
+                ex.append({"pos": pos, "ref": r0, "alts": other[:2], "where": "lone", "i": None,
+                           "gts": {sm: _multi_gt(rng, ploidy) for sm in samples}})
+                occupied.add(pos)
+        case["extra_records"][c] = ex
+    case["vcf_extra_contig"] = rng.choice([None, None, None, "first", "last"])
     # read groups
     ignore_rg = rng.random() < 0.2
     bam_samples = list(samples)
@@ -286,9 +454,13 @@ def gen_case(rng, region_kind=None, big=False, special=None):
     header_rg = not (ignore_rg and rng.random() < 0.5)
     if header_rg:
         for s in bam_samples:
-            ids = [f"rg{s}a"] + ([f"rg{s}b"] if rng.random() < 0.4 else [])
+            ids = [f"rg{s}{x}" for x in "abc"[:rng.choice([1, 1, 2, 3])]]
             rgs_of[s] = ids
             rgs += [{"ID": i, "SM": s} for i in ids]
+        if rng.random() < 0.15:                   # a read group without SM (its reads belong to no sample)
+            rgs.append({"ID": "rgNoSM"})
+            rgs_of["__nosm__"] = ["rgNoSM"]
+        rng.shuffle(rgs)                          # read groups of one sample need not be adjacent in the header
     alns = []
     empty_chrom = rng.choice(normal) if (nchrom > 1 and rng.random() < 0.1) else None
     case["normal_chroms"] = [c for c in normal if c != empty_chrom]
@@ -298,12 +470,22 @@ def gen_case(rng, region_kind=None, big=False, special=None):
                 continue
             n = rng.randint(3, 16 if big else 9)
             alns += gen_reads(rng, case, s, c, n, rgs_of.get(s))
+    if "__nosm__" in rgs_of:
+        alns += gen_reads(rng, case, "__nosm__", rng.choice(case["normal_chroms"]), 3, ["rgNoSM"])
     if header_rg and not ignore_rg and rng.random() < 0.2:   # a read group of a sample that is not in the VCF
         rgs.append({"ID": "rgX", "SM": "SX"})
         case["calls"]["SX"] = case["calls"][samples[0]]
         alns += gen_reads(rng, case, "SX", normal[0], 3, ["rgX"])
         del case["calls"]["SX"]
     alns = decorate(rng, case, alns)
+    case["bx_traps"] = 0
+    if case["bx"] and cutoff is not None and 5 <= cutoff <= 150:
+        for sm in bam_samples:
+            for c in case["normal_chroms"]:
+                if rng.random() < 0.7:
+                    tr = bx_trap(rng, case, sm, c, rgs_of.get(sm), cutoff)
+                    case["bx_traps"] += bool(tr)
+                    alns += tr
     if "chrU" in chroms:
         LU = len(case["ref"]["chrU"])
         for k in range(rng.randint(1, 4)):
@@ -333,16 +515,16 @@ def gen_case(rng, region_kind=None, big=False, special=None):
     case["rgs"], case["alns"], case["tail"] = rgs, alns, tail
     # options
     opts = {"ploidy": ploidy, "ignore_read_groups": ignore_rg, "tag_supplementary": rng.random() < 0.5,
-            "ignore_linked_read": rng.random() < 0.3, "cutoff": rng.choice([None, 0, 40, 150, 400, 50000]),
+            "ignore_linked_read": rng.random() < 0.25, "cutoff": cutoff,
             "no_reference": rng.random() < 0.5, "output_threads": rng.choice([1, 1, 2, 4]),
-            "haplotag_list": rng.random() < 0.7, "samples": None, "regions": None}
+            "haplotag_list": rng.random() < 0.7, "list_gz": rng.random() < 0.25, "samples": None, "regions": None}
     if ignore_rg:
         opts["samples"] = [rng.choice(samples)] if rng.random() < 0.85 or len(samples) == 1 else rng.sample(samples, 2)
     elif rng.random() < 0.25:
         opts["samples"] = rng.sample(samples, rng.randint(1, len(samples)))
     if region_kind is None:
         region_kind = rng.choice(["none"] * 9 + ["chrom", "chrom", "single", "open", "sorted-far", "sorted-far",
-                                                 "sorted-near", "overlapping", "unsorted", "chrom-order"])
+                                                 "sorted-near", "overlapping", "unsorted", "chrom-order", "edge", "edge"])
     if region_kind != "none":
         opts["regions"] = gen_regions(rng, case, region_kind)
     case["region_kind"] = region_kind
@@ -362,24 +544,107 @@ def gen_case(rng, region_kind=None, big=False, special=None):
 
 
 # ------------------------------------------------------------------------------------------ writers
+def _hp_text(gt, ps):
+    """GT (ascending, unphased) and HP value that VcfReader decodes to the phase vector gt in block ps"""
+    g = sorted(gt)
+    used, order = set(), [None] * len(g)
+    for i, a in enumerate(gt):                    # haplotype i takes a not yet used index j of g with g[j] == a
+        j = next(j for j in range(len(g)) if g[j] == a and j not in used)
+        used.add(j)
+        order[j] = i
+    return "/".join(str(x) for x in g), ",".join(f"{ps}-{o + 1}" for o in order)
+
+
+def vcf_records(case, chrom, swap=None):
+    """records of one contig in file order: (pos0, ref, [alts], {sample: call text}, kind, variant index)"""
+    hp = case.get("phase_tag") == "HP"
+    ex = case.get("extra_records", {}).get(chrom, [])
+    out = []
+
+    def extra_line(e):
+        cols = {}
+        for s in case["samples"]:
+            g = e["gts"][s]
+            cols[s] = ("/".join(str(x) for x in g["gt"]) + ":.") if hp else ("|".join(str(x) for x in g["gt"]) + f":{g['ps']}")
+        return (e["pos"], e["ref"], e["alts"], cols, "multi" if len(e["alts"]) > 1 else "dup", e["i"])
+    lone = sorted((e for e in ex if e["where"] == "lone"), key=lambda e: e["pos"])
+    for i, (pos, ref, alt) in enumerate(case["variants"][chrom]):
+        while lone and lone[0]["pos"] < pos:
+            out.append(extra_line(lone.pop(0)))
+        for e in ex:
+            if e["where"] == "before" and e["i"] == i:
+                out.append(extra_line(e))
+        cols = {}
+        for s in case["samples"]:
+            call = case["calls"][s][chrom][i]
+            gt = call["gt"]
+            if swap and swap["sample"] == s and call["phased"] and call["ps"] == swap["ps"]:
+                gt = [gt[j] for j in swap["perm"]]
+            het = len(set(gt)) > 1
+            if hp:
+                if call["phased"] and het and call["ps"] is not None:
+                    g, h = _hp_text(gt, call["ps"])
+                    cols[s] = g + ":" + h
+                else:
+                    cols[s] = "/".join(str(x) for x in sorted(gt)) + ":."
+            else:
+                sep = "|" if call["phased"] else "/"
+                cols[s] = sep.join(str(x) for x in gt) + ":" + ("." if call["ps"] is None else str(call["ps"]))
+        out.append((pos, ref, [alt], cols, "variant", i))
+        for e in ex:
+            if e["where"] == "after" and e["i"] == i:
+                out.append(extra_line(e))
+    out += [extra_line(e) for e in lone]
+    return out
+
+
+def expected_rows(case, chrom, sample):
+    """the variant table column the reader must deliver for `sample` (all biallelic records, the first one per POS):
+    [(pos0, homozygous, None | (block, [alleles]))]"""
+    rows, seen = [], set()
+    hp = case.get("phase_tag") == "HP"
+    for pos, ref, alts, cols, kind, i in vcf_records(case, chrom):
+        if len(alts) > 1 or pos in seen:
+            continue
+        seen.add(pos)
+        if kind == "variant":
+            call = case["calls"][sample][chrom][i]
+            gt = call["gt"]
+            het = len(set(gt)) > 1
+            ph = (call["ps"], list(gt)) if (call["phased"] and het and call["ps"] is not None) else None
+            rows.append((pos, not het, ph))
+        else:                                        # a biallelic extra record that comes first at its POS: not generated
+            raise AssertionError("extra biallelic record precedes the variant")
+    return rows
+
+
 def write_vcf(case, path, swap=None):
     import pysam
+    hp = case.get("phase_tag") == "HP"
+    contigs = list(case["chroms"])
+    extra = case.get("vcf_extra_contig")
+    if extra:
+        contigs = (["chrV"] + contigs) if extra == "first" else (contigs + ["chrV"])
     lines = ["##fileformat=VCFv4.2"]
-    lines += [f"##contig=<ID={c},length={len(case['ref'][c])}>" for c in case["chroms"]]
+    lines += [f"##contig=<ID={c},length={len(case['ref'][c]) if c in case['ref'] else 500}>" for c in contigs]
     lines.append('##FORMAT=<ID=GT,Number=1,Type=String,Description="Genotype">')
-    lines.append('##FORMAT=<ID=PS,Number=1,Type=Integer,Description="Phase set">')
+    if hp:
+        lines.append('##FORMAT=<ID=HP,Number=.,Type=String,Description="Phasing haplotype identifier">')
+    else:
+        lines.append('##FORMAT=<ID=PS,Number=1,Type=Integer,Description="Phase set">')
     lines.append("#CHROM\tPOS\tID\tREF\tALT\tQUAL\tFILTER\tINFO\tFORMAT\t" + "\t".join(case["samples"]))
-    for c in case["chroms"]:
-        for i, (pos, ref, alt) in enumerate(case["variants"][c]):
-            cols = []
-            for s in case["samples"]:
-                call = case["calls"][s][c][i]
-                gt = call["gt"]
-                if swap and swap["sample"] == s and call["phased"] and call["ps"] == swap["ps"]:
-                    gt = [gt[j] for j in swap["perm"]]
-                sep = "|" if call["phased"] else "/"
-                cols.append(sep.join(str(x) for x in gt) + ":" + ("." if call["ps"] is None else str(call["ps"])))
-            lines.append(f"{c}\t{pos + 1}\t.\t{ref}\t{alt}\t.\tPASS\t.\tGT:PS\t" + "\t".join(cols))
+    fmt = "GT:HP" if hp else "GT:PS"
+    for c in contigs:
+        if c == "chrV":                              # a contig that only the VCF knows (phased records, never used)
+            for k, pos in enumerate((40, 90, 160)):
+                g = [0] * (case["ploidy"] - 1) + [1]
+                txt = ("/".join(map(str, g)) + f":{pos}-" + f",{pos}-".join(str(j + 1) for j in range(case["ploidy"]))) if hp \
+                    else ("|".join(map(str, g)) + ":41")
+                lines.append(f"chrV\t{pos + 1}\t.\tA\tC\t.\tPASS\t.\t{fmt}\t" + "\t".join([txt] * len(case["samples"])))
+            continue
+        for pos, ref, alts, cols, kind, i in vcf_records(case, c, swap):
+            lines.append(f"{c}\t{pos + 1}\t.\t{ref}\t{','.join(alts)}\t.\tPASS\t.\t{fmt}\t"
+                         + "\t".join(cols[s] for s in case["samples"]))
     with open(path, "w") as f:
         f.write("\n".join(lines) + "\n")
     pysam.tabix_compress(path, path + ".gz", force=True)
@@ -445,6 +710,10 @@ def materialize(case, d):
     if case.get("swap"):
         files["vcf_swapped"] = write_vcf(case, os.path.join(d, "swapped.vcf"), swap=case["swap"])
     return files
+
+
+def list_path(case, d):
+    return os.path.join(d, "list.tsv.gz" if case["opts"].get("list_gz") else "list.tsv")
 
 
 def cli_args(case, files, vcf_key, out_bam, out_list):
